@@ -178,6 +178,11 @@ impl Envelope {
         for envelope in envelopes {
             for assertion in envelope.assertions_with_predicate(known_values::SSKR_SHARE) {
                 let share = assertion.subject().try_object()?.extract_subject::<SSKRShare>()?;
+                // A share starts with five bytes of metadata; anything shorter is not
+                // a share, and `identifier()` would index past its end.
+                if share.data().len() < 5 {
+                    bail!(EnvelopeError::InvalidShares);
+                }
                 let identifier = share.identifier();
                 result.entry(identifier).and_modify(|shares| shares.push(share.clone())).or_insert(vec![share]);
             }
